@@ -139,6 +139,7 @@ class Stats:
 
 
 EX = None  # current explorer (one per process at a time)
+JIT_DEPTH = 0  # > 0 while a function decorated with numba.jit runs (set by the loader's jit stand-in)
 
 
 def cur():
@@ -598,6 +599,18 @@ class SF:
         o = _lift_or_ni(o)
         if o is NotImplemented:
             return o
+        if JIT_DEPTH > 0:
+            # scalar division inside a Numba-compiled function: ZeroDivisionError when the divisor is zero (fork)
+            bv0 = z3.simplify(o.v)
+            if not (z3.is_rational_value(bv0) and bv0.as_fraction() != 0):
+                if bool(mkbool(o.is_zero())):
+                    raise ZeroDivisionError("division by zero")
+        return self._div_ieee(o)
+
+    def _div_ieee(self, o):
+        o = _lift_or_ni(o)
+        if o is NotImplemented:
+            return o
         a, b = self, o
         bv = z3.simplify(b.v)
         if b.simple() and b.nan is False and z3.is_rational_value(bv) and bv.as_fraction() != 0:
@@ -1030,11 +1043,15 @@ class F(float):
     def __truediv__(self, o):
         if not isinstance(o, (int, float)):
             return NotImplemented
+        if JIT_DEPTH > 0 and o == 0:
+            raise ZeroDivisionError("division by zero")
         return F(_ieee_div(float(self), float(o)))
 
     def __rtruediv__(self, o):
         if not isinstance(o, (int, float)):
             return NotImplemented
+        if JIT_DEPTH > 0 and self == 0:
+            raise ZeroDivisionError("division by zero")
         return F(_ieee_div(float(o), float(self)))
 
     def __pow__(self, p):
